@@ -29,7 +29,7 @@ def run_w(ctx, prop, plan, rule, level="model_checking", extra_assumptions=(), b
             if block.get("kills") is not None:
                 for scen in scens:
                     S.explore_kills(scen, policy=block.get("policies", ("FIFO",))[0], base_schedules=block["kills"].get("bases", ({},)),
-                                    restart_bound=block["kills"].get("restart_bound", 0))
+                                    restart_bound=block["kills"].get("restart_bound", 0), demote=block["kills"].get("demote", False))
             else:
                 S.explore_block(scens, block.get("policies", ("FIFO",)), block["bound"], cap=block.get("cap"), window=block.get("window"), demote=block.get("demote", False))
         cov = coverage(S, allsc, rule)
